@@ -75,7 +75,7 @@ def run(ctx):
         if not branch:
             ctx.unknown('T27', eq.fq, 'no isinstance(other, %s) branch found' % cname, eq.loc)
         else:
-            onepass.pair_view(ctx, eq, branch[0].body, ['self', eq.params[1]], 'comparison of two %ss' % cname)
+            onepass.pair_view(ctx, eq, branch[0].body, ['self', eq.params[1]], 'comparison of two %ss' % cname, prog=prog, ci=prog.cls(cls))
         onepass.sources_consumed(ctx, prog.func(cls + '.update'), ['E', 'F'])
         onepass.sources_consumed(ctx, prog.func(cls + '.update_extend'), ['E', 'F'])
         # T19p: a bulk mutator uses every source it accepts (a parameter that is never read is a silently dropped source)
